@@ -502,6 +502,33 @@ def gen_positions(rng, tier):
         yield "pub %s %s" % (hx(MAGIC + b"".join(k.enc() for k in [ph, cr, cr, pr, pr, sg])), good)
 
 
+def gen_pairs(rng, tier):
+    """every table, every pair of rows (a row with itself included): a valid tree in which both rows are present, in row order —
+    a repeated single-valued element, two members of an exclusive group, two rows that share a field"""
+    reps = 2 if tier == "quick" else 12
+    ders = der_blobs()
+    good = " ".join(hx(b) for b in ders["cert"] + ders["pkiSig"])
+    targets = [(root, root[3], root[2]) for root in ROOTS] + \
+              [(None, tm, 0x10) for tm in sorted(schema().keys()) if tm not in ("KSI_Signature", "KSI_PublicationsFile", "KSI_MetaDataElement")]
+    for root, tm, tag in targets:
+        rows = schema()[tm]
+        idx = {}
+        for i, e in enumerate(rows):
+            idx.setdefault(e["tag"], i)
+        for i in range(len(rows)):
+            for j in range(i, len(rows)):
+                for _ in range(reps):
+                    node = valid(rng, tm, tag, depth=4)
+                    keep = [k for k in node.kids if k.tag not in (rows[i]["tag"], rows[j]["tag"])]
+                    keep += [value(rng, rows[i], 3), value(rng, rows[j], 3)]
+                    keep.sort(key=lambda k: idx.get(k.tag, 0))
+                    node.kids = keep
+                    if root is not None:
+                        yield emit(root, node)
+                    else:
+                        yield "tmpl %s %s %s" % (tm, hx(node.enc()), good if ("Cert" in tm or "PublicationsFile" in tm) else "")
+
+
 def trivial(cls):
     return cls.endswith(":256") or cls.endswith(":?")
 
@@ -519,6 +546,7 @@ CONFIG.translators = [tables.gen_templates, tables.gen_hashalgs]
 def gen_all(rng, tier):
     yield from gen_positions(rng, tier)
     yield from gen_values(rng, tier)
+    yield from gen_pairs(rng, tier)
     yield from gen(rng, tier)
 
 
@@ -529,7 +557,7 @@ CONFIG.rule = ("op lines from one PRNG (VERIF_SEED). (1) positional rules exhaus
                "publications-file sections, each extra record at each position. (2) value parsers at their boundaries: legacy ids with every "
                "length octet and a changed octet at every position; integers of 0..10 octets with leading 00/01/80/ff; imprints for all 256 "
                "algorithm ids x digest lengths around the right one; strings with every lead octet x 0..4 continuation / non-continuation octets. "
-               "(3) schema-directed random trees: a valid tree for each of the 8 roots (PDU v1/v2 request/response, signature, publications file) "
+               "(2b) every table x every pair of rows (a row with itself included) present together in an otherwise valid tree. (3) schema-directed random trees: a valid tree for each of the 8 roots (PDU v1/v2 request/response, signature, publications file) "
                "and for each of the 34 constructible tables, then mutated at a random node: drop / repeat (any flags) / unknown critical or "
                "non-critical / move / add a row of an exclusive group / malformed value per kind / flags / untiled content / emptied composite; "
                "the other PDU version and family. (4) the repository's sample signatures and publications files with an unknown element at "
